@@ -53,6 +53,7 @@ var pkgAlias = map[string]string{
 	"astminify":      V2Prefix + "pkg/astminify",
 	"lexer":          V2Prefix + "pkg/lexer",
 	"keyword":        V2Prefix + "pkg/lexer/keyword",
+	"identkeyword":   V2Prefix + "pkg/lexer/identkeyword",
 	"runes":          V2Prefix + "pkg/lexer/runes",
 	"varsvalidation": V2Prefix + "pkg/variablesvalidation",
 	"caching":        V2Prefix + "pkg/caching",
